@@ -20,10 +20,10 @@ Theorem epoch_succeeds C o gen p x s R NR :
   Part p -> Fresh p -> zlen (p_orgs p) = o_pop_size o -> 0 < o_pop_size o < 2 ^ 31 ->
   GInv C p (s_env s) R NR -> records_traits_ok (s_env s) (zlen (c_tshape C)) ->
   acts_ok o -> survivors_ok o -> PrimFloat.eqb (o_compat_thresh o) 0 = false ->
-  exps_nonneg (p_heap p) -> quota_sum_ok o p -> tape_ok (s_tape s) ->
+  quota_sum_ok o p -> tape_ok (s_tape s) ->
   (exists r, next_epoch o gen p x s = Ok r) \/ next_epoch o gen p x s = OutOfTape.
 Proof.
-  intros HP Fr Hsz Hpop G Hrec HA Sv Hc Hex Hq Ht.
+  intros HP Fr Hsz Hpop G Hrec HA Sv Hc Hq Ht.
   apply (next_epoch_total C o gen p x s R NR); auto.
   - now apply acts_ok_safe.
   - apply quota_survives; auto; lia.
@@ -237,7 +237,7 @@ Definition quota_sum_okb (o : options) (p : population) : bool :=
   | Ok (h1, sps1) =>
     match purge_zero_offspring (p_with p sps1 (p_detached p) (p_orgs p) h1) with
     | Ok p2 => match count_all (p_heap p2) sps1 0%float 0 with
-               | Ok (_, T) => Z.leb T (o_pop_size o)
+               | Ok (sps, T) => Z.leb T (o_pop_size o) && forallb (fun s => Z.leb 0 (sp_exp s)) sps
                | _ => true
                end
     | _ => true
@@ -247,7 +247,9 @@ Definition quota_sum_okb (o : options) (p : population) : bool :=
 
 Lemma quota_sum_okb_ok o p : quota_sum_okb o p = true -> quota_sum_ok o p.
 Proof.
-  unfold quota_sum_okb, quota_sum_ok. intros H h1 sps1 p2 sps T E1 E2 E3. rewrite E1, E2, E3 in H. now apply Z.leb_le.
+  unfold quota_sum_okb, quota_sum_ok. intros H h1 sps1 p2 sps T E1 E2 E3. rewrite E1, E2, E3 in H.
+  apply andb_true_iff in H. destruct H as [H1 H2]. split; [now apply Z.leb_le|].
+  intros s Hs. apply Z.leb_le. exact (proj1 (forallb_forall _ _) H2 s Hs).
 Qed.
 
 Fixpoint quota_run_okb (o : options) (steps : list (list float * Z)) (p : population) (x : executor) (s : st) : bool :=
